@@ -131,19 +131,27 @@ def run(ctx):
                 ok_op = B.origin(n['args'][0]) == (('param', 'msgid'), ())
         ctx.add('K3.abandon-op-payload', B.path, loc(B.root), ok_op, 'LdapOp::Abandon does not carry the msgid parameter')
 
-    # K4 removal site per terminal event class
+    # K4 removal site per terminal event class, read from the enumerated paths of each arm (a `remove`, or a `retain` that amounts to
+    # removals, whatever the spelling): every way an operation can end has a path that takes its routing entry out
+    import driver as drv
+    arm_outs = {role: drv.arm_paths(C, role)[0] for role in ('response', 'scrub', 'request')}
     for w in ('result', 'search'):
         for role in ('response', 'scrub', 'request'):
-            ok = any(ww == w and arm_of.get(id(u)) == role for u, uc, ww in unroutes)
+            ok = any(drv.map_calls(C, o, w, names=('remove', 'remove_entry')) for o in arm_outs[role])
             ctx.add('K4.removal-site', '%s|%s' % (w, role), loc(C.arms[role]['body']), ok,
                     'no removal from the %s routing map in the %s arm' % (w, role))
-    # scrub arm: all three removals with the scrubbed ID
-    scrub = C.arms['scrub']
-    o_s = hirq.project(L.origin_of_bind(scrub['bindings'][0][0]), ('variant', 'Some', 0))
-    for what, items in (('result', [u for u, _, w in unroutes if w == 'result']), ('search', [u for u, _, w in unroutes if w == 'search']),
-                        ('in-use set', [r for r, _ in releases])):
-        ok = any(arm_of.get(id(x)) == 'scrub' and hirq.strip_casts(L.origin(x['args'][0])) == o_s for x in items)
-        ctx.add('K4.scrub-removes', what, loc(scrub['body']), ok, 'the scrub arm does not remove the scrubbed ID from the %s' % what)
+    # scrub arm: on every path that received an ID, all three removals name that ID
+    SCRUBBED = ('variant', drv.ARM, 'Some', 0)
+    n_scrub = 0
+    for o in arm_outs['scrub']:
+        if absx.pc_variant(o.st.pc, lambda v: v == drv.ARM, 'Some') is not True:
+            continue
+        n_scrub += 1
+        for what, which in (('result', 'result'), ('search', 'search'), ('in-use set', 'idset')):
+            keys = [sem.strip_site(args[1]) for i_, name, args, node in drv.map_calls(C, o, which, names=('remove', 'remove_entry')) if len(args) > 1]
+            ctx.add('K4.scrub-removes', what, loc(C.arms['scrub']['body']), SCRUBBED in keys,
+                    'the scrub arm has a path that does not remove the scrubbed ID from the %s (removed: %s)' % (what, [absx.fmt(k)[:30] for k in keys]))
+    ctx.floor('K4', 'scrub arm paths that received an ID', n_scrub, 1)
 
     # K6 early finish scrubs
     fin = [h for p, h in f.hir.items() if p.startswith('ldap3::search::SearchStream') and p.endswith('::finish_inner')]
